@@ -79,10 +79,10 @@ class Cfg:
 
 
 class Build:
-    def __init__(self, cfg, flavour, bdir):
-        self.cfg, self.flavour, self.dir = cfg, flavour, bdir
+    def __init__(self, cfg, flavour, bdir, cc=None):
+        self.cfg, self.flavour, self.dir, self.cc = cfg, flavour, bdir, cc
         self.ok, self.log = False, ''
-        self.name = cfg.name + '/' + flavour
+        self.name = cfg.name + '/' + flavour + ('-' + cc if cc else '')
 
     @property
     def lib(self):
@@ -95,6 +95,8 @@ class Build:
         fl = FLAVOURS[self.flavour][1].split()
         if self.flavour == 'rel':
             fl = ['-O2', '-g']
+        if self.cc == 'clang' and self.flavour == 'asan':
+            fl.append('-fno-sanitize=object-size')
         inc = ['-I' + os.path.join(VERIF, 'h'), '-I' + os.path.join(VERIF, 'ref'),
                '-I' + os.path.join(REPO, 'src'), '-I' + self.dir,
                '-DHAVE_CONFIG_H', '-D' + GUARD] + self.cfg.force_flags()
@@ -139,8 +141,10 @@ class Ctx:
         if key in self.builds:
             return self.builds[key]
         bdir = os.path.join(self.scratch, 'b-%s-%s%s' % (cfg.name, flavour, '-' + cc if cc else ''))
-        b = Build(cfg, flavour, bdir)
+        b = Build(cfg, flavour, bdir, cc)
         btype, flags, _ = FLAVOURS[flavour]
+        if cc == 'clang' and 'fsanitize=address' in flags:
+            flags += ' -fno-sanitize=object-size'
         cflags = ('-D' + GUARD + ' ' + flags).strip()
         cmd = ['cmake', '-G', 'Ninja', '-S', REPO, '-B', bdir, '-DCMAKE_BUILD_TYPE=' + btype,
                '-DCMAKE_C_FLAGS=' + cflags, '-DCMAKE_CXX_FLAGS=' + cflags] + cfg.cmake_args()
@@ -159,7 +163,7 @@ class Ctx:
     def build_many(self, specs):
         """specs: list of (cfg, flavour[, targets]) -> list of Build (parallel)."""
         with cf.ThreadPoolExecutor(max_workers=max(1, NCPU // 3)) as ex:
-            futs = [ex.submit(self.build, s[0], s[1], s[2] if len(s) > 2 else ('ascon_static',)) for s in specs]
+            futs = [ex.submit(self.build, s[0], s[1], s[2] if len(s) > 2 and s[2] else ('ascon_static',), s[3] if len(s) > 3 else None) for s in specs]
             return [f.result() for f in futs]
 
     def build_failed(self, b, prop=None):
@@ -172,7 +176,8 @@ class Ctx:
 
     def compile_harness(self, b, name, sources, cxx=False, extra=(), libs=()):
         out = os.path.join(b.dir, 'h_' + name)
-        cc = 'g++' if cxx else 'gcc'
+        clang = b.cc == 'clang'
+        cc = ('clang++' if cxx else 'clang') if clang else ('g++' if cxx else 'gcc')
         objs = []
         ref_o = os.path.join(b.dir, 'vf_ref.o')
         com_o = os.path.join(b.dir, 'vf_common.o')
@@ -180,7 +185,7 @@ class Ctx:
         for src, o in ((os.path.join(VERIF, 'ref', 'ascon_ref.c'), ref_o), (os.path.join(VERIF, 'h', 'common.c'), com_o)):
             if not os.path.exists(o):
                 fl = [f for f in base if not f.startswith('-fsanitize') and f != '-fno-sanitize-recover=all' and f != '--coverage']
-                p = subprocess.run(['gcc'] + fl + ['-c', src, '-o', o], stdout=subprocess.PIPE, stderr=subprocess.STDOUT, text=True)
+                p = subprocess.run(['clang' if clang else 'gcc'] + fl + ['-c', src, '-o', o], stdout=subprocess.PIPE, stderr=subprocess.STDOUT, text=True)
                 if p.returncode:
                     raise HarnessError('compile %s: %s' % (src, p.stdout))
             objs.append(o)
